@@ -199,8 +199,30 @@ func (r FileReplacer) Replace(d data.Data, cl Changelog) (*ast.File, error) {
 		}
 	}
 
+	parenthesize(file)
+
 	err = r.Imports.Cleanup(d, file, newImports)
 	return file, err
+}
+
+// parenthesize adds the parentheses that go/printer does not add on its own
+// because go/parser never produces these trees without a ParenExpr, but
+// substituting a metavariable can: "*x" with x = "a + b" has to be printed
+// as "*(a + b)", and "chan T" with T = "<-chan int" as "chan (<-chan int)".
+func parenthesize(file *ast.File) {
+	ast.Inspect(file, func(n ast.Node) bool {
+		switch n := n.(type) {
+		case *ast.StarExpr:
+			if _, ok := n.X.(*ast.BinaryExpr); ok {
+				n.X = &ast.ParenExpr{X: n.X}
+			}
+		case *ast.ChanType:
+			if v, ok := n.Value.(*ast.ChanType); ok && n.Dir != ast.RECV && v.Dir == ast.RECV {
+				n.Value = &ast.ParenExpr{X: n.Value}
+			}
+		}
+		return true
+	})
 }
 
 type _fileMatchKey struct{}
